@@ -14,7 +14,7 @@ CONSTANTS
   MutRepairDeep = FALSE
   MaxPre = 4
   MaxMid = 0
-  MaxNoops = 1
+  MaxNoops = 0
   PostOps = 2
   PostNoops = 1
   MaxCrashes = 1
